@@ -16,19 +16,21 @@ pub(crate) struct MemoryStats {
 }
 
 impl MemoryStats {
+    // These are statistics of a long-lived cache: they wrap around instead of overflowing
+    // (an overflow check here panics the statement that happens to do the 65536th eviction).
     fn cache_hit(&self) {
         let current = self.cache_hits.get();
-        self.cache_hits.set(current + 1);
+        self.cache_hits.set(current.wrapping_add(1));
     }
 
     fn cache_miss(&self) {
         let current = self.cache_misses.get();
-        self.cache_misses.set(current + 1);
+        self.cache_misses.set(current.wrapping_add(1));
     }
 
     fn eviction(&self) {
         let current = self.frames_evicted.get();
-        self.frames_evicted.set(current + 1);
+        self.frames_evicted.set(current.wrapping_add(1));
     }
 }
 impl Display for MemoryStats {
